@@ -188,8 +188,8 @@ CHECKS = {
               "environments, a detector conflict, or a cleanup while an environment is live."),
         assumptions=["ownership at the start of an operation is read through the API at quiescence and cross-checked for consistency",
                      "interleavings inside the core beyond the forced overlap are not owned"],
-        quick=[R("^TestFixed$", 1, 1, 500), R("^TestOwnership$", 10, 10, 800, shrinktime="90s")],
-        thorough=[R("^TestFixed$", 1, 1, 500), R("^TestOwnership$", 150, 15, 3400, shrinktime="180s")],
+        quick=[R("^(TestFixed|TestSavedDetectorRace)$", 1, 1, 500), R("^TestOwnership$", 10, 10, 800, shrinktime="90s")],
+        thorough=[R("^(TestFixed|TestSavedDetectorRace)$", 1, 1, 500), R("^TestOwnership$", 150, 15, 3400, shrinktime="180s")],
         floors={"multi-env": ("TestOwnership", 0.25)},
     ),
     "C06": dict(
